@@ -231,7 +231,7 @@ def run(ctx: Ctx, rep: Report) -> None:
                 return isinstance(expr.ops[0], ast.Is)  # `loop is None` -> take the default loop
             return None
 
-        for retries in (1, 2, 3, 4):
+        for retries in (tuple(range(1, 13)) if rep.tier == "thorough" else (1, 2, 3, 4)):
             for timeouts in range(0, retries + 1):
                 run_ = run_int_cfg(
                     ctx,
